@@ -31,6 +31,9 @@ type Case struct {
 	// DropSchema (with Split): the desired realm no longer has the second schema at all (its tables must all be dropped ones):
 	// the change set holds a DropSchema next to the table changes of the first schema
 	DropSchema bool   `json:"drop_schema,omitempty"`
+	// Cols (MySQL): a table has the column r<j> only while it has a foreign key to table j: a dropped key takes its column
+	// with it (DropForeignKey and DropColumn in one ModifyTable), an added key brings it
+	Cols    bool   `json:"cols,omitempty"`
 	Flavour string `json:"flavour,omitempty"` // MySQL family: "" = mysql.DefaultPlan; mysql8 | mysql57 | maria | tidb = the planner of a driver opened against that server
 	Names   int    `json:"names"`   // 0: FK named after its edge (a re-pointed FK is drop+add); 1: named after its table and slot (the n-th FK of a table keeps its name when it points elsewhere: ModifyForeignKey)
 }
@@ -116,6 +119,15 @@ func buildOpt(c Case, tables []int, edges []Edge, dropSecond bool) *schema.Realm
 		aux := schema.NewColumn("aux").SetType(intT)
 		t.AddColumns(id, aux)
 		for j := 0; j < c.N; j++ {
+			if c.Cols {
+				has := false
+				for _, e := range edges {
+					has = has || e.From == i && e.To == j
+				}
+				if !has {
+					continue
+				}
+			}
 			t.AddColumns(schema.NewNullColumn(fmt.Sprintf("r%d", j)).SetType(intT))
 			if c.Multi {
 				t.AddColumns(schema.NewNullColumn(fmt.Sprintf("s%d", j)).SetType(intT))
